@@ -209,6 +209,45 @@ def accessor_clash_workspace(rng):
     return ws
 
 
+def rebind_workspace(rng):
+    """binders that re-use the name of something their own initialiser / call still mentions: `use req <- middleware(req, ctx)`,
+    `let x = f(x)`, a clause pattern named like the subject, a lambda parameter named like a captured variable.  The mention on
+    the right means the OUTER binder.  Occurrences known by construction."""
+    nm = rng.choice(["req", "state", "acc"])
+    text = (f"pub fn middleware({nm}, ctx, next) {{\n  next(#({nm}, ctx))\n}}\n\n"
+            f"pub fn handle({nm}, ctx) {{\n  use {nm} <- middleware({nm}, ctx)\n  let {nm} = wrap({nm})\n  case {nm} {{\n    [{nm}] -> wrap({nm})\n    _ -> {nm}\n  }}\n}}\n\n"
+            f"pub fn wrap(v) {{\n  [v]\n}}\n\n"
+            f"pub fn later({nm}) {{\n  let f = fn({nm}) {{ wrap({nm}) }}\n  f({nm})\n}}\n")
+    files = [("/w/p/src/m1.gleam", text), ("/w/p/gleam.toml", 'name = "p"\n')]
+    ws = PlainWs(files)
+    def at(needle, k=0, nth=0):
+        i = -1
+        for _ in range(nth + 1):
+            i = text.index(needle, i + 1)
+        return (0, len(text[:i + k].encode("utf-8")))
+    h = text.index("pub fn handle")
+    def ath(needle, k=0, nth=0):
+        i = h - 1
+        for _ in range(nth + 1):
+            i = text.index(needle, i + 1)
+        return (0, len(text[:i + k].encode("utf-8")))
+    l = text.index("pub fn later")
+    def atl(needle, k=0, nth=0):
+        i = l - 1
+        for _ in range(nth + 1):
+            i = text.index(needle, i + 1)
+        return (0, len(text[:i + k].encode("utf-8")))
+    ws.groups = [
+        (nm, [ath(f"handle({nm}", 7), ath(f"middleware({nm}, ctx)", 11)]),                       # the parameter and the argument of the use call
+        (nm, [ath(f"use {nm}", 4), ath(f"wrap({nm})", 5)]),                                       # the use binder and the initialiser of the let
+        (nm, [ath(f"let {nm}", 4), ath(f"case {nm}", 5), ath(f"_ -> {nm}", 5)]),                   # the let binder, the subject, the last clause body
+        (nm, [ath(f"[{nm}]", 1), ath(f"wrap({nm})", 5, 1)]),                                      # the clause binder and its body
+        (nm, [atl(f"later({nm}", 6), atl(f"f({nm})", 2)]),                                        # the parameter of `later` and the argument
+        (nm, [atl(f"fn({nm})", 3), atl(f"wrap({nm})", 5)]),                                       # the lambda parameter and its use
+    ]
+    return ws
+
+
 def lookalike_workspace(rng):
     """look-alike modules (a template instantiated twice): in two files a function sits at exactly the same byte range, one
     module names the library function qualified, the other imports it unqualified; a third declares a local of the same
@@ -298,6 +337,7 @@ def run_c06(res, tier, seed):
     wss += [record_workspace(rrng) for _ in range(12 if tier == "quick" else 100)]
     wss += [deep_module_workspace(rrng) for _ in range(6 if tier == "quick" else 60)]
     wss += [lookalike_workspace(rrng) for _ in range(4 if tier == "quick" else 40)]
+    wss += [rebind_workspace(rrng) for _ in range(3 if tier == "quick" else 30)]
     wss += [accessor_clash_workspace(rrng) for _ in range(3 if tier == "quick" else 30)]
     wss += [variant_label_workspace(rrng) for _ in range(6 if tier == "quick" else 60)]
     run_expected_groups(res, "C06", wss)
